@@ -7,6 +7,8 @@ from harness.impl_algebra import impl_algebra_op, enc_parent
 
 ID = "C02"
 LEAN_MODULE = "BioCantor.Props.C02"
+EXTRA_LEAN_MODULES = ["BioCantor.Props.C02Ties"]   # Gen kernels (regenerated from source) = hand-written model
+GEN_NEEDS = ["SingleInterval_"]
 DESIGN_REF = "4/C02"
 DRIVER = "drivers/C02.lean"
 SPEC_DRIVER = "drivers/SpecC02.lean"
@@ -20,11 +22,16 @@ RULE = ("exhaustive ordered pairs of small layouts x strands x flags x Single/Co
 EXHAUSTIVE_NOTE = ""
 TRUSTED = ["Model/Algebra.lean, Model/ParentKey.lean are hand-written; tied to location_impl.py / location.py / "
            "parent.py by this run's correspondence (exception classes compared)",
+           "Gen/Kernels.lean SingleInterval kernels (extend_absolute, shift_position, optimize_blocks, "
+           "_has_overlap_single_interval, _intersection_single_interval) regenerated from source and proved equal to "
+           "the model (Props/C02Ties.lean)",
            "Spec/Algebra.lean evaluates coverage position by position up to the largest coordinate in the case"]
 ASSUMPTIONS = ["parents are abstracted to (id, sequence_type, sequence data, ancestors); ids are None or non-empty "
                "strings; ancestors carry no location of their own",
                "coordinates are non-negative ints; Python ints modelled as unbounded Int/Nat",
-               "cgranges is not installed: the pairwise branch of _intersection_compound_interval is the one checked"]
+               "cgranges is not installed: the pairwise branch of _intersection_compound_interval is the one executed; the "
+               "cgranges branch is modelled from the source with the documented query semantics (s < en and st < e) and "
+               "proved equal to the pairwise branch for operands without zero-length blocks"]
 MODEL_OPS = None
 
 BASES = "ACGT"
@@ -108,6 +115,7 @@ def binary_ops(a, b, ms_fs=FLAG3, dists=("inner", "outer", "starts", "ends"), st
         yield f"minus {a} {b} {ms} {strict}"
     yield f"union {a} {b}"
     yield f"unionpo {a} {b}"
+    yield f"eqhash {a} {b}"
     for d in dists:
         yield f"dist {a} {b} {d}"
 
@@ -155,7 +163,7 @@ def cases(run):
     g_full = 2 if quick else 3
     EXHAUSTIVE_NOTE = (
         f"binary ops (overlap/isect/contains x (match_strand, full_span) in 4 combos, minus x match_strand, union, "
-        f"union_preserve_overlaps, distance x 4 types): all ordered pairs of layouts with <= 2 blocks "
+        f"union_preserve_overlaps, ==/hash, distance x 4 types): all ordered pairs of layouts with <= 2 blocks "
         f"(incl. zero-length, adjacent, nested, duplicate blocks; one-block layouts as SingleInterval and as "
         f"CompoundInterval; plus EmptyLocation) on a genome of length {g_full} x 6 strand pairs x all flags; on a genome "
         f"of length {g_pairs} every ordered pair x all flags with the strand pair rotating over the 6 pairs; unary ops "
@@ -237,6 +245,13 @@ def cases(run):
             for strict in "01":
                 yield from binary_ops(a, b, ms_fs=[("0", "0"), ("1", "1")] if strict == "1" else FLAG3,
                                       dists=("inner", "starts") if strict == "0" else (), strict=strict)
+    # equality / hash of identical blocks under every ordered pair of parents, and Single vs one-block Compound
+    for (na, pa), (nb, pb) in itertools.product(pool.items(), repeat=2):
+        for la, lb in [(("S", "+", [(1, 4)]), ("S", "+", [(1, 4)])), (("S", "+", [(1, 4)]), ("C", "+", [(1, 4)])),
+                       (("C", "-", [(0, 2), (3, 6)]), ("C", "-", [(0, 2), (3, 6)])),
+                       (("C", "-", [(0, 2), (3, 6)]), ("C", "+", [(0, 2), (3, 6)])),
+                       (("C", "+", [(0, 2), (0, 3)]), ("C", "+", [(0, 3), (0, 2)]))]:
+            yield f"eqhash {ploc(enc_parent(pa), *la)} {ploc(enc_parent(pb), *lb)}"
     # unary results keep the parent / respect its bounds
     for name, pa in pool.items():
         for l in [("S", "+", [(1, 4)]), ("C", "-", [(0, 2), (2, 3), (5, 6)]), ("C", "+", [(1, 1), (2, 4), (3, 6)])]:
